@@ -100,7 +100,7 @@ pub fn check_files(files: &[(String, String)], root: usize) -> Option<Vec<Violat
 }
 
 /// layout of the in-memory files
-const PATHS: &[&str] = &["/p/f0.graphql", "/p/f1.graphql", "/p/d/f2.graphql", "/p/d/e/f3.graphql", "/q/f4.graphql", "/p/f5.graphql", "/p/d/f6.graphql", "/f7.graphql"];
+const PATHS: &[&str] = &["/p/f0.graphql", "/p/f1.graphql", "/p/d/f1.graphql", "/p/d/e/f3.graphql", "/q/f1.graphql", "/p/f5.graphql", "/p/d/f5.graphql", "/f7.graphql"];
 
 fn rel_spellings(from: &str, to: &str, rng: Option<&mut Rng>) -> String {
     // canonical relative path via reference algebra
@@ -327,6 +327,23 @@ pub fn run(ctx: &Ctx, rep: &mut Report) {
     for case in 0..n {
         let mut rng = ctx.rng("random", case);
         let (files, fault) = random_case(&mut rng);
+        // a quarter of the graphs use fragment names that begin like a keyword of the import syntax
+        let files: Vec<(String, String)> = if rng.chance(1, 4) {
+            let prefix = rng.s(&["from", "fromage_", "import", "on_", "fragment", "query_"]);
+            files
+                .into_iter()
+                .map(|(p, mut t)| {
+                    for i in 0..PATHS.len() {
+                        for c in ["a", "b", "c"] {
+                            t = t.replace(&format!("F{i}{c}"), &format!("{prefix}\u{1}{i}{c}"));
+                        }
+                    }
+                    (p, t.replace('\u{1}', "F"))
+                })
+                .collect()
+        } else {
+            files
+        };
         rep.eval();
         rep.count(&format!("random_graphs|fault={fault}"));
         if case < 3000 {
